@@ -1142,15 +1142,17 @@ fn step_forward(w: &World, step: usize, f: &Fwd, d: &mut Dump, allowed: &BTreeSe
 }
 
 pub fn property() -> Property {
-    Property {
+    let mut p = Property {
         id: "C19",
         rule: "case = (forwarder flavour, start ledger, initial allow-list, history of 10..33 (thorough 49) ops: forwards with state-relative fee/max/expiration/pre-allowance \
                selectors over 3 fee tokens (2 library tokens + SAC), 2 users, 3 relayers, 2 targets and 12 explicit-authorization modes; allow-list enable/disable by \
                manager/stranger; sweep; target scripting; ledger advance). non-trivial = >=1 successful forward AND >=1 forward refused solely for fee bounds AND >=1 refused \
-               solely for a tampered user authorization AND >=1 refused solely because the target call fails. distinct = distinct serialised case",
+               solely for a tampered user authorization AND >=1 refused solely because the target call fails. collect-fee-direct: a contract calling the low-level collect_fee helper directly, payer = an ordinary user or the contract itself, eager/lazy, fee/max/expiration/pre-allowance/entries varied; non-trivial = >=1 self-charge refused although the contract could pay, >=1 successful and >=1 refused user charge. distinct = distinct serialised case",
         subs: vec![
             gen_sub::<Case>("permissionless", 600, 10000, strat_permissionless, run_case),
             gen_sub::<Case>("permissioned", 900, 15000, strat_permissioned, run_case),
+            // the low-level helper used directly: decides "user equal to the forwarder" where real authorization can reach it
+            gen_sub::<super::c19b::Case>("collect-fee-direct", 900, 15000, super::c19b::strategy, super::c19b::run),
         ],
         // <= 1/10 of the minimum measured over seeds 0..5 (quick); thorough = 10 x quick
         floors: vec![
@@ -1194,5 +1196,7 @@ pub fn property() -> Property {
             "fee tokens (library Base token, Stellar Asset Contract) are trusted collaborators here (C02 checks the library token); balances/allowances are observed through their public balance/allowance entry points",
             "an `approve` sub-invocation that the lazy strategy does not use (allowance >= max) is not required; a forward without it may succeed",
         ],
-    }
+    };
+    p.floors.extend(super::c19b::FLOORS.iter().cloned());
+    p
 }
